@@ -340,4 +340,4 @@ def run(ctx: Ctx, rep: Report) -> None:
     meth = ti.methods.get("origin")
     oko = meth is not None and any(isinstance(n, ast.Return) and n.value is not None and norm(n.value).endswith(".source.address") for n in own_nodes(meth.node))
     rep.check(oko, "C19-R5", meth.site() if meth else f"{ti.module.path} (TrapInfo)", "TrapInfo.origin is the address of the trap's source", key="TrapInfo.origin|source")
-    rep.adopt_rules(ctx.sub_run("c06", rep), "C19-R6", ["C06-R3"])
+    rep.adopt_rules(ctx.sub_run("c06", rep), "C19-R6", ["C06-R3", "C06-R1", "C06-R4"])
